@@ -31,13 +31,44 @@ struct C05 : RBase {
     F.push_back(func("mutu", {{"u", "tup"}}, "int", {doit(setitem(var("u", "tup"), 1, ilit(99))), ret(item(var("u", "tup"), 1))}));
     F.push_back(func("idt", {{"t", "tabint"}}, "tabint", {ret(var("t", "tabint"))}));
     F.push_back(func("ids", {{"s", "str"}}, "str", {ret(var("s", "str"))}));
+    // a local that is only assigned on one path, read twice before any assignment, in a function called repeatedly (recycled context)
+    { json isn = json{{"k", "bi"}, {"f", "isnull"}, {"args", json::array({var("lc", "str")})}, {"t", "bool"}};
+      F.push_back(func("unset", {{"k", "int"}}, "bool", {iff(bin("==", var("k"), ilit(1), "bool"), {let("lc", slit("set"))}), print({slit("unset:"), isn, isn}), iff(isn, {print({slit("still unset")})}), ret(isn)})); }
     B.push_back(let("ta", tab(ilit(3), ilit(1)))); B.push_back(let("sa", slit("abc"))); B.push_back(let("ua", tup({ilit(1), slit("x")}))); B.push_back(let("ia", ilit(5)));
     B.push_back(let("tb", var("ta", "tabint"))); B.push_back(let("sb", var("sa", "str"))); B.push_back(let("ub", var("ua", "tup")));
     auto show = [&]() { B.push_back(print({slit("ta="), mth("at", var("ta", "tabint"), {ilit(0)}), mth("count", var("ta", "tabint"), {}), slit(" tb="), mth("at", var("tb", "tabint"), {ilit(0)}), mth("count", var("tb", "tabint"), {}), slit(" sa="), var("sa", "str"), slit(" sb="), var("sb", "str"), slit(" ua="), var("ua", "tup"), slit(" ub="), var("ub", "tup"), slit(" ia="), var("ia")})); };
     int pid = p.fault_points;
     int n = (int)r.range(6, 20);
     for (int i = 0; i < n; ++i) {
-      switch (r.below(22)) {
+      switch (r.below(27)) {
+      case 22: { // the null constants of the program text, read repeatedly by built-ins that recycle the storage of their operand
+        json nl{{"k", "null"}, {"t", ""}}; json ni{{"k", "null"}, {"t", "int"}}; json ns{{"k", "null"}, {"t", "str"}};
+        auto isn = [](json e) { return json{{"k", "bi"}, {"f", "isnull"}, {"args", json::array({e})}, {"t", "bool"}}; };
+        B.push_back(forl("r3", ilit(1), ilit(3), {print({isn(nl), isn(ni), isn(ns), isn(var("ia")), isn(var("sa", "str"))})})); break; }
+      case 23: B.push_back(print({slit("unset:"), call("unset", {ilit(r.range(0, 1))}, "bool")})); break;
+      case 24: case 25: { // an in-place method applied directly to the result of a built-in that may hand its operand through
+        static const char* PASS[] = {"str", "upper", "lower", "trim", "ltrim", "rtrim"};
+        json src = r.chance(0.7) ? var("sa", "str") : slit("Lit");
+        json recv; switch (r.below(4)) {
+          case 0: recv = json{{"k", "bi"}, {"f", PASS[r.below(6)]}, {"args", json::array({src})}, {"t", "str"}}; break;
+          case 1: recv = json{{"k", "bi"}, {"f", "substr"}, {"args", json::array({src, ilit(0)})}, {"t", "str"}}; break;
+          case 2: recv = json{{"k", "bi"}, {"f", "replace"}, {"args", json::array({src, slit(r.chance(0.5) ? "" : "zz"), slit("y")})}, {"t", "str"}}; break;
+          default: recv = json{{"k", "bi"}, {"f", "str"}, {"args", json::array({src})}, {"t", "str"}}; break; }
+        if (r.chance(0.3)) { // a null or out-of-range second operand makes the built-in hand its first operand through; the result is never printed (only the operand must stay intact)
+          json ni{{"k", "null"}, {"t", "int"}}; json ns{{"k", "null"}, {"t", "str"}};
+          switch (r.below(5)) {
+            case 0: recv = json{{"k", "bi"}, {"f", "substr"}, {"args", json::array({src, ni})}, {"t", "str"}}; break;
+            case 1: recv = json{{"k", "bi"}, {"f", "lsubstr"}, {"args", json::array({src, ni})}, {"t", "str"}}; break;
+            case 2: recv = json{{"k", "bi"}, {"f", "rsubstr"}, {"args", json::array({src, ni})}, {"t", "str"}}; break;
+            case 3: recv = json{{"k", "bi"}, {"f", "replace"}, {"args", json::array({src, ns, slit("y")})}, {"t", "str"}}; break;
+            default: recv = json{{"k", "bi"}, {"f", "substr"}, {"args", json::array({src, ilit(0), ni})}, {"t", "str"}}; break; }
+          json st = doit(mth("concat", recv, {slit("!")}, "str"));
+          if (src["k"] == "str") B.push_back(forl("r4", ilit(1), ilit(3), {st})); else B.push_back(st);
+          break; }
+        json st = r.chance(0.5) ? print({slit("tmp:"), mth("concat", recv, {slit("!")}, "str")}) : doit(mth("concat", recv, {ilit(r.range(65, 90))}, "str"));
+        if (src["k"] == "str") B.push_back(forl("r4", ilit(1), ilit(3), {st})); else B.push_back(st);
+        break; }
+      case 26: B.push_back(forl("r5", ilit(1), ilit(2), {print({slit("unset:"), call("unset", {ilit(0)}, "bool")})})); break;
       case 0: B.push_back(let("tb", var("ta", "tabint"))); B.push_back(doit(mth("put", var("tb", "tabint"), {ilit(0), ilit(r.range(2, 9))}, "tabint"))); break;
       case 1: B.push_back(let("tb", var("ta", "tabint"))); B.push_back(doit(mth("concat", var("ta", "tabint"), {ilit(r.range(2, 9))}, "tabint"))); break;
       case 2: B.push_back(let("tb", var("ta", "tabint"))); B.push_back(doit(mth("insert", var("tb", "tabint"), {ilit(0), ilit(r.range(2, 9))}, "tabint"))); break;
